@@ -16,11 +16,11 @@ import (
 func init() {
 	Register(&Rule{
 		ID: "C25", Section: "5 C25",
-		Technique: "taint-style instance table (5 sink operand classes of Request.write/Header.WriteSubset x 3 frontend sources): value-flow of each wire string back to its origin, sanitiser recognition at the sinks (strings.Replacer table, net/url parse gate), validator recognition at the sources (path rules in the HPACK emit closure of readMetaFrame, validator-gate search in the SPDY parser) with the validators' verdict for CR/LF/NUL decided by conditional constant propagation; dominance order of the writes in Request.write",
+		Technique: "taint-style instance table (5 sink operand classes of Request.write/Header.WriteSubset x 3 frontend sources): value-flow of each wire string back to its origin, sanitiser recognition at the sinks (strings.Replacer table, net/url parse gate), validator recognition at the sources (path rules in the HPACK emit closure of readMetaFrame, validator-gate search in the SPDY parser) with the validators' verdict for CR/LF/NUL decided by conditional constant propagation; dominance order of the writes in Request.write; use-after-release search over storage-sharing SSA values for the pooled header sorter",
 		Meta: core.Meta{
 			Level:       "other",
-			Explanation: "Decides, for every string Request.write / Header.WriteSubset / transferWriter.WriteHeader put on the backend connection: (sinks) the request line is \"%s %s HTTP/1.1\\r\\n\" of (Method, target) and is written before everything else, the Host line is \"Host: %s\\r\\n\", header lines are key \": \" value \"\\r\\n\" with the value passed through headerNewlineToSpace (a Replacer that maps both CR and LF to CR/LF-free text), the header block is terminated by one CRLF after the header lines and before the body, framing headers of the client are excluded from the copied header map, the request-target is either an escaped URL.RequestURI(), or the raw RequestURI only under a successful url.ParseRequestURI of that same string, or the host; (sources) which call produces Method, Host, RequestURI, URL and Header in each of the three frontends (HTTP/1 ReadRequest: the request line / header block read by the line reader; HTTP/2 newWriterAndRequest: MetaHeadersFrame pseudo values and the header map built from RegularFields; SPDY newWriterAndRequest: the header block parsed by parseHeaderValueBlock); (validators) in readMetaFrame's emit closure a field reaches mh.Fields only if validHeaderFieldValue(hf.Value) held and, for non-pseudo fields, validHeaderFieldName(hf.Name) held (every failing verdict stores a non-nil error that is tested before the append and makes readMetaFrame fail), validHeaderFieldValue rejects CR, LF and NUL, validHeaderFieldName accepts only RFC 7230 token bytes; for SPDY a validity gate over name / value bytes must dominate Header.Add in parseHeaderValueBlock (or the request construction). Each (sink, source) pair is discharged by a sink sanitiser or a source validator. Not covered: rewrites by modules between frontend and transport, SP inside an HTTP/2 :method, bare CR in HTTP/1 lines (the line reader only excludes LF), equality of forwarded and accepted fields, the Trailer announcement line (keys come from validated values).",
-			RuleText:    "obligations = sink shape/order/sanitiser instances, h2 validator path instances, origin of each Request field per frontend, 15 (sink operand, source) pairs",
+			Explanation: "Decides, for every string Request.write / Header.WriteSubset / transferWriter.WriteHeader put on the backend connection: (sinks) the request line is \"%s %s HTTP/1.1\\r\\n\" of (Method, target) and is written before everything else, the Host line is \"Host: %s\\r\\n\", header lines are key \": \" value \"\\r\\n\" with the value passed through headerNewlineToSpace (a Replacer that maps both CR and LF to CR/LF-free text), the header block is terminated by one CRLF after the header lines and before the body, framing headers of the client are excluded from the copied header map, the request-target is either an escaped URL.RequestURI(), or the raw RequestURI only under a successful url.ParseRequestURI of that same string, or the host; (sources) which call produces Method, Host, RequestURI, URL and Header in each of the three frontends (HTTP/1 ReadRequest: the request line / header block read by the line reader; HTTP/2 newWriterAndRequest: MetaHeadersFrame pseudo values and the header map built from RegularFields; SPDY newWriterAndRequest: the header block parsed by parseHeaderValueBlock); (validators) in readMetaFrame's emit closure a field reaches mh.Fields only if validHeaderFieldValue(hf.Value) held and, for non-pseudo fields, validHeaderFieldName(hf.Name) held (every failing verdict stores a non-nil error that is tested before the append and makes readMetaFrame fail), validHeaderFieldValue rejects CR, LF and NUL, validHeaderFieldName accepts only RFC 7230 token bytes; for SPDY a validity gate over name / value bytes must dominate Header.Add in parseHeaderValueBlock (or the request construction). Each (sink, source) pair is discharged by a sink sanitiser or a source validator. (pool) after a pooled serialisation object (headerSorter) is handed back to its free list - send on a package-level channel of pointers, sync.Pool.Put, or a helper doing so - no path uses or returns the object or a value sharing its storage, so the header lines being written cannot be overwritten by a concurrent request. Not covered: rewrites by modules between frontend and transport, SP inside an HTTP/2 :method, bare CR in HTTP/1 lines (the line reader only excludes LF), equality of forwarded and accepted fields, the Trailer announcement line (keys come from validated values).",
+			RuleText:    "obligations = sink shape/order/sanitiser instances, h2 validator path instances, origin of each Request field per frontend, 15 (sink operand, source) pairs, each free-list release site of bfe_http / textproto / bfe_bufio",
 			Assumptions: []string{"net/url.ParseRequestURI rejects control bytes and (*url.URL).RequestURI() emits an escaped target", "bfe_bufio.Reader.ReadLine returns LF-free lines", "hpack delivers every decoded field to the emit function"},
 		},
 		Run: runC25,
@@ -37,6 +37,9 @@ func init() {
 			{Name: "h2-name-table-colon", File: "bfe_http2/http2.go", Old: "var isTokenTable = [127]bool{\n	'!':  true,", New: "var isTokenTable = [127]bool{\n	':':  true,\n	'!':  true,", Expect: "h2-validate|validHeaderFieldName"},
 			{Name: "h2-target-unparsed", File: "bfe_http2/server.go", Old: "		url_, err = url.ParseRequestURI(path)\n		if err != nil {", New: "		url_, err = url.ParseRequestURI(path)\n		if err != nil && path == \"\" {", Expect: "source|h2:target-parsed"},
 			{Name: "h2-method-from-header", File: "bfe_http2/server.go", Old: "		Method:     method,\n		URL:        url_,", New: "		Method:     header.Get(\"X-Http-Method-Override\"),\n		URL:        url_,", Expect: "source|h2:Method"},
+			{Name: "sorter-released-before-write-loop", File: "bfe_http/header.go", Old: "	kvs, sorter := h.sortedKeyValues(exclude)\n	for _, kv := range kvs {\n		for _, v := range kv.values {\n			v = headerNewlineToSpace.Replace(v)\n", New: "	kvs, sorter := h.sortedKeyValues(exclude)\n	select {\n	case headerSorterCache <- sorter:\n	default:\n	}\n	for _, kv := range kvs {\n		for _, v := range kv.values {\n			v = headerNewlineToSpace.Replace(v)\n", Expect: "pool-release|"},
+			{Name: "sorter-released-by-producer", File: "bfe_http/header.go", Old: "	hs.kvs = kvs\n	sort.Sort(hs)\n	return kvs, hs", New: "	hs.kvs = kvs\n	sort.Sort(hs)\n	select {\n	case headerSorterCache <- hs:\n	default:\n	}\n	return kvs, nil", Expect: "pool-release|"},
+			{Name: "silent-release-through-helper", Silent: true, File: "bfe_http/header.go", Old: "	select {\n	case headerSorterCache <- sorter:\n	default:\n	}\n	return nil\n}\n", New: "	putHeaderSorter(sorter)\n	return nil\n}\n\nfunc putHeaderSorter(hs *headerSorter) {\n	select {\n	case headerSorterCache <- hs:\n	default:\n	}\n}\n"},
 			{Name: "silent-write-logging", Silent: true, File: "bfe_http/request.go", Old: "	// Header lines\n	fmt.Fprintf(w, \"Host: %s\\r\\n\", host)", New: "	// Header lines\n	hostLine := host\n	fmt.Fprintf(w, \"Host: %s\\r\\n\", hostLine)"},
 		},
 	})
@@ -241,6 +244,37 @@ func runC25(c *core.Ctx) {
 	c25H1(c, fx, st)
 	c25Spdy(c, fx, st)
 	c25Matrix(c, st)
+	c25PoolRelease(c)
+}
+
+// ------------------------------------------------------------ pooled serialisation buffers
+
+// c25PoolRelease: the header lines written to a backend are iterated out of
+// pooled scratch storage (headerSorter). Once an object is handed back to its
+// free list another goroutine may take and overwrite it, so after a release
+// (send on a package-level channel of pointers, sync.Pool.Put, or a helper
+// doing that with its parameter) no instruction on any path may use - or
+// return - the released object or a value sharing its storage (loaded from /
+// stored into its fields, re-slices and appends of those, other results of the
+// producing call when the callee returns storage-sharing results).
+func c25PoolRelease(c *core.Ctx) {
+	const rule = "pool-release"
+	c.Min(rule, 2)
+	scope := c.P.SrcFuncs("bfe_http", "bfe_net/textproto", "bfe_bufio")
+	pool := sh1NewPool(scope)
+	n := map[string]int{}
+	for _, fn := range scope {
+		for _, r := range pool.Sites(fn) {
+			c.Analysed(core.FuncKey(fn))
+			hit, val := pool.UseAfter(fn, r)
+			detail := ""
+			if hit != nil {
+				detail = core.Render(r.Val) + " is handed back to the free list (" + r.Where + ") and afterwards " + core.Render(val) + ", which shares its storage, is still used at " + c.P.Pos(hit.Pos()) +
+					" (" + strings.TrimSpace(hit.String()) + "): another goroutine can take the pooled object and overwrite that storage while it is still being read, so the header fields written to a backend can be those of a different request"
+			}
+			c.Check(rule, h1bOrd(core.FuncKey(fn)+":release", n), r.At.Pos(), hit == nil, detail)
+		}
+	}
 }
 
 type c25State struct {
